@@ -120,6 +120,8 @@ type Sim struct {
 	HonestComplaints map[[2]int]int    // (complainer, dealer) -> round delivered first
 	AllComplaints    map[[2]int]int    // (complainer, dealer) -> round first broadcast, Byzantine complainers included
 	Answers          map[[2]int][]byte // (dealer, complainer) -> first answer payload (scalar bytes) broadcast
+	FirstVector      map[int][]byte    // sender -> payload of the first verification vector it broadcast (honest and Byzantine dealers)
+	FirstVectorRound map[int]int       // sender -> round in which that broadcast was made
 	Classes          map[string]bool
 	reorder          bool // whether non-FIFO delivery happened
 	faultsOn         bool
@@ -148,7 +150,7 @@ func (s *Sim) class(c string) { s.Classes[c] = true }
 // New builds the participants.  byz lists the Byzantine indices.
 func New(g *gen.G, proto Protocol, n, t, dealer int, byz []int, swapped bool) *Sim {
 	s := &Sim{G: g, Proto: proto, N: n, T: t, Dealer: dealer, later: map[int][]*delivery{}, bseq: make([]int, n),
-		Dealers: map[int]*DealerInfo{}, HonestComplaints: map[[2]int]int{}, AllComplaints: map[[2]int]int{}, Answers: map[[2]int][]byte{}, Classes: map[string]bool{},
+		Dealers: map[int]*DealerInfo{}, HonestComplaints: map[[2]int]int{}, AllComplaints: map[[2]int]int{}, Answers: map[[2]int][]byte{}, FirstVector: map[int][]byte{}, FirstVectorRound: map[int]int{}, Classes: map[string]bool{},
 		Excluded: map[string]int{}, Swapped: swapped, faultsOn: true}
 	isByz := map[int]bool{}
 	for _, b := range byz {
@@ -298,6 +300,10 @@ func (s *Sim) observeBroadcast(d *delivery) {
 			}
 		}
 	case TagVector:
+		if _, ok := s.FirstVector[d.from]; !ok {
+			s.FirstVector[d.from] = append([]byte{}, d.data[1:]...)
+			s.FirstVectorRound[d.from] = s.Round
+		}
 		if di := s.Dealers[d.from]; di != nil && di.VectorSent == nil {
 			di.VectorSent = append([]byte{}, d.data[1:]...)
 		}
@@ -747,6 +753,21 @@ func (s *Sim) inject() {
 					val, kind = di.Honest[c], "inject:answerCorrectValue"
 					if di.VectorFault == "alt" && di.Alt[c] != nil {
 						val = di.Alt[c]
+					}
+				} else if g.Chance("answerMalformed", 1, 4) {
+					// an unsolicited answer that is malformed: scalar 0 / r / 2^256-1, or one byte short / long
+					kind = "inject:answerMalformed"
+					switch g.Int("answerMalformedKind", 0, 4) {
+					case 0:
+						val = make([]byte, 32)
+					case 1:
+						val = scalar32(scalarR)
+					case 2:
+						val = bytes.Repeat([]byte{0xff}, 32)
+					case 3:
+						val = val[:31]
+					default:
+						val = append(val, 0)
 					}
 				}
 				if _, complained := s.HonestComplaints[[2]int{c, b}]; !complained && !s.Nodes[c].Byz {
